@@ -343,6 +343,8 @@ def run_check(P, tier, seed, replay=None):
         return 0
 
     # 1. proof obligations
+    if hasattr(P, "pre_build"):
+        P.pre_build()
     build = build_coq(P.COQ_FILES, clean=(tier == "thorough"))
     obligations = len(build["theorems"])
     discharged = obligations if build["ok"] else 0
